@@ -60,6 +60,8 @@ THEOREMS = [
     "Verif.C03.line_range_exact_raw_shape",
     "Verif.C03.kymo_geometry_ranges",
     "Verif.C03.scan_ts_placement",
+    "Verif.C03.incl_range_exact_inner",
+    "Verif.C03.frame_incl_range_exact_inner",
 ]
 RULE = (
     "corpus (F11 input, split-mode mean witness) + malformed stream (empty wave, nothing used, no boundary, interior "
